@@ -7,6 +7,7 @@ import (
 	"sync"
 
 	"github.com/evanoberholster/imagemeta/meta"
+	"github.com/evanoberholster/imagemeta/verifhook"
 	"github.com/pkg/errors"
 )
 
@@ -63,6 +64,7 @@ func (r *Reader) peek(n int) ([]byte, error) {
 func (r *Reader) discard(n int) (int, error) {
 	n, err := r.br.Discard(n)
 	r.offset += n
+	verifhook.T("bmff", "adv", int64(n), int64(r.offset))
 	return n, err
 }
 
@@ -102,9 +104,11 @@ func (r *Reader) readBox() (b box, err error) {
 			return b, errors.Wrapf(errLargeBox, "readBox '%s'", b.boxType)
 		}
 		b.remain = int(b.size)
+		verifhook.T("bmff", "open", int64(b.offset), b.size, 16, 0, int64(b.boxType))
 		_, err = b.Discard(16)
 		return b, err
 	}
+	verifhook.T("bmff", "open", int64(b.offset), b.size, 8, 0, int64(b.boxType))
 	_, err = b.Discard(8)
 	return b, err
 }
